@@ -1,5 +1,5 @@
 use pretty::{Arena, DocAllocator};
-use typst_syntax::ast::*;
+use typst_syntax::{ast::*, SyntaxKind, SyntaxNode};
 
 use super::{util::has_comment_children, ArenaDoc, Context, Mode};
 use crate::PrettyPrinter;
@@ -38,6 +38,9 @@ impl<'a> PrettyPrinter<'a> {
         if ctx.break_suppressed || !is_paren_needed(expr) {
             return self.convert_expr(ctx, expr);
         }
+        // A line comment forces a line break inside the body. That break ends a statement
+        // between braces, but not between parentheses.
+        let use_braces = use_braces && !contains_line_comment(expr.to_untyped());
         let (mode, delims) = if use_braces {
             (Mode::Code, ("{", "}"))
         } else {
@@ -81,6 +84,10 @@ fn optional_paren<'a>(
     let open = (arena.text(delims.0) + arena.hardline()).flat_alt(arena.nil());
     let close = (arena.hardline() + arena.text(delims.1)).flat_alt(arena.nil());
     ((open + body).nest(indent as isize) + close).group()
+}
+
+fn contains_line_comment(node: &SyntaxNode) -> bool {
+    node.kind() == SyntaxKind::LineComment || node.children().any(contains_line_comment)
 }
 
 /// Checks if parentheses are needed for an expression that may span multiple lines.
